@@ -1,6 +1,7 @@
 package fx
 
 import (
+	"encoding/binary"
 	"io"
 	"sync"
 
@@ -176,4 +177,21 @@ func BadF4UsesBeforeTest(raw []byte) uint16 {
 		return 0
 	}
 	return seq
+}
+
+// ---- F1: fixed-width decode -----------------------------------------------------------------------------------------
+
+func GoodF1Decode(h *rtp.Header, id uint8) uint16 {
+	ext := h.GetExtension(id)
+	if len(ext) < 2 {
+		return 0
+	}
+	return binary.BigEndian.Uint16(ext)
+}
+
+func BadF1Decode(h *rtp.Header, id uint8) uint16 {
+	if ext := h.GetExtension(id); ext != nil {
+		return binary.BigEndian.Uint16(ext)
+	}
+	return 0
 }
